@@ -154,41 +154,41 @@ fn check(plan: &Plan, out: &RunOut) -> CheckOut {
     let stats = if spec.client_stats.is_some() { "on" } else { "off" };
     let wcls = spec.workers;
     let deadline = t_sig + 3 * dsim::SEC;
+    // worker threads still running at the deadline
+    let ended_at = |t: usize| -> Option<u64> { w.history.iter().find(|r| matches!(&r.ev, dsim::Ev::TaskEnd { task, .. } if *task == t)).map(|r| r.t) };
+    let stuck_ids: Vec<usize> = b.worker_tasks.iter().map(|(t, _)| *t).filter(|t| ended_at(*t).map(|e| e > deadline).unwrap_or(true)).collect();
+    let stuck: Vec<String> = stuck_ids.iter().map(|t| w.tasks[*t].name.clone()).collect();
+    // Which failure is it? A worker that came back from poll no later than one poll timeout
+    // (100 ms, plus slack) after the signal and from then to the deadline kept receiving without
+    // ever seeing WouldBlock is inside the drain loop of process_events: the recorded finding.
+    // Anything else is a different defect and keeps its own signature.
+    let drain_busy = !stuck_ids.is_empty()
+        && stuck_ids.iter().all(|t| {
+            let evs: Vec<&dsim::Rec> = w.history.iter().filter(|r| r.task == Some(*t) && r.t <= deadline).collect();
+            let t0 = evs.iter().rev().find(|r| matches!(r.ev, dsim::Ev::PollRet { .. })).map(|r| r.t).unwrap_or(0);
+            let after: Vec<&&dsim::Rec> = evs.iter().filter(|r| r.t > t0).collect();
+            let received = after.iter().filter(|r| matches!(r.ev, dsim::Ev::UdpRecv { .. })).count();
+            let saw_empty = after.iter().any(|r| matches!(r.ev, dsim::Ev::UdpRecvEmpty { .. }));
+            t0 <= t_sig + 150 * dsim::MS && received > 0 && !saw_empty
+        });
+    let late_sig = if drain_busy { "C19|exit_deadline|receive_queue_never_empty".to_string() } else { format!("C19|exit_deadline|load={}", load) };
     match (b.exit, b.exit_at) {
         (Some(code), Some(at)) => {
             if code != 0 {
                 co.violate("C19", "exit_status_nonzero", format!("C19|exit_status_nonzero|load={}|code={}", load, code), format!("after the signal the process ended with status {} ({})", code, b.exit_how));
             }
             if at > deadline {
-                co.violate("C19", "exit_deadline", format!("C19|exit_deadline|load={}", load), format!("exit took {:.3} simulated s after the signal", (at - t_sig) as f64 / 1e9));
+                co.violate("C19", "exit_deadline", late_sig.clone(), format!("exit took {:.3} simulated s after the signal ({} workers, client_stats {}, load {}); threads still running at the 3 s deadline: {:?}", (at - t_sig) as f64 / 1e9, wcls, stats, load, stuck));
             }
             co.count("exit_latency_ms_sum", (at.saturating_sub(t_sig)) / dsim::MS);
             co.count("exits", 1);
         }
         _ => {
             if w.now >= deadline {
-                let stuck_ids: Vec<usize> = b.worker_tasks.iter().filter(|(t, _)| w.tasks[*t].state != dsim::TState::Done || matches!(w.tasks[*t].end, Some(dsim::TaskEnd::Killed))).map(|(t, _)| *t).collect();
-                let stuck: Vec<String> = stuck_ids.iter().map(|t| w.tasks[*t].name.clone()).collect();
-                // which failure is it? A stuck worker that, from the signal to the deadline, never
-                // once found its socket empty (no WouldBlock, no return to poll) is inside the
-                // drain loop of process_events; anything else is a different defect.
-                let drain_busy = !stuck_ids.is_empty()
-                    && stuck_ids.iter().all(|t| {
-                        // t0: when the worker last came back from poll (entered process_events'
-                        // event loop); it must have done so no later than 100 ms after the signal
-                        // and, from then to the deadline, have kept receiving without ever seeing
-                        // WouldBlock
-                        let evs: Vec<&dsim::Rec> = w.history.iter().filter(|r| r.task == Some(*t) && r.t <= deadline).collect();
-                        let t0 = evs.iter().rev().find(|r| matches!(r.ev, dsim::Ev::PollRet { .. })).map(|r| r.t).unwrap_or(0);
-                        let after: Vec<&&dsim::Rec> = evs.iter().filter(|r| r.t > t0).collect();
-                        let received = after.iter().filter(|r| matches!(r.ev, dsim::Ev::UdpRecv { .. })).count();
-                        let saw_empty = after.iter().any(|r| matches!(r.ev, dsim::Ev::UdpRecvEmpty { .. }));
-                        t0 <= t_sig + 100 * dsim::MS && received > 0 && !saw_empty
-                    });
                 co.violate(
                     "C19",
                     "exit_deadline",
-                    if drain_busy { "C19|exit_deadline|receive_queue_never_empty".to_string() } else { format!("C19|exit_deadline|load={}", load) },
+                    late_sig.clone(),
                     format!("{} delivered at {:.6}s ({} workers, client_stats {}, load {}): the process is still running {:.1} simulated s later; threads still alive: {:?}", if plan.p("sig") == 2 { "SIGINT" } else { "SIGTERM" }, t_sig as f64 / 1e9, wcls, stats, load, (w.now - t_sig) as f64 / 1e9, stuck),
                 );
             }
